@@ -135,6 +135,7 @@ PROPS = {
         "assumptions": ["adapters have distinct addresses and endpoint IDs", "register-again is exercised while the first instance is started"],
         "units": [
             {"name": "c16.traces", "pkg": CLA, "test": "TestVerifC16Traces", "shards_t": 16, "shards_q": 4, "crash_is_violation": True},
+            {"name": "c16.newmanager", "pkg": CLA, "test": "TestVerifC16NewManager", "shards_t": 8, "shards_q": 2, "crash_is_violation": True},
         ],
     },
     "C12": {
